@@ -112,6 +112,19 @@ Section TotalPreorder.
   Qed.
 End TotalPreorder.
 
+(* ------------------------------------------------------------------ corollaries *)
+Section Corollaries.
+  Variable E : Type.
+
+  (* the Array invariant says in particular: nitems <= nslots = number of allocated cells *)
+  Theorem array_invariant_capacity (a : array E) :
+    a_inv E a -> nitems E a <= nslots E a /\ length (cells E a) = nslots E a.
+  Proof.
+    intros (vs & rest & Hc & Hn & Hl). split; [|exact Hl].
+    rewrite <- Hl, Hc, app_length, map_length. lia.
+  Qed.
+End Corollaries.
+
 (* ------------------------------------------------------------------ the repaired defects were real *)
 (* witnesses on the pre-repair variants of the models (DESIGN section 8 D13, D14, D15) *)
 Section PreRepair.
